@@ -5,6 +5,7 @@ paths), objectBoundingBox definitions shared by several elements (clones with ge
 context paint, text with paint servers and text paths, nested SVG images with their own definitions.
 Every random choice comes from the caller's SplitMix64."""
 import base64
+import re
 
 NS = 'xmlns="http://www.w3.org/2000/svg" xmlns:xlink="http://www.w3.org/1999/xlink"'
 GEN_LIKE = ['clipPath1', 'clipPath2', 'mask1', 'filter1', 'filter2', 'pattern1', 'linearGradient1',
@@ -84,6 +85,16 @@ class RefDoc:
             ida = ' id="%s"' % i
         k = rng.below(4)
         attrs = self.ref_attrs(idx, in_clip=in_clip)
+        if not in_clip and rng.below(8) == 0:
+            # a stroked horizontal line: its object bounding box has no height
+            if ' stroke=' not in attrs:
+                attrs += ' stroke="black" stroke-width="4"'
+            return '<line%s x1="%d" y1="%d" x2="%d" y2="%d"%s/>' % (ida, x, y + 20, x + w, y + 20, attrs)
+        pats = self.later(idx, ('pat',))
+        if not in_clip and len(pats) >= 2 and rng.below(6) == 0:
+            a, b = pats[0][1], pats[-1][1]
+            attrs = re.sub(r' (fill|stroke)="[^"]*"| stroke-width="[^"]*"', '', attrs)
+            return '<rect%s x="%d" y="%d" width="%d" height="%d" fill="url(#%s)" stroke="url(#%s)" stroke-width="8"%s/>' % (ida, x, y, w, h, a, b, attrs)
         if k == 0:
             return '<rect%s x="%d" y="%d" width="%d" height="%d"%s/>' % (ida, x, y, w, h, attrs)
         if k == 1:
@@ -244,3 +255,46 @@ class RefDoc:
 
 def gen_ref_doc(rng, **kw):
     return RefDoc(rng, **kw).build()
+
+
+# ------------------------------------------------------------------------------------------------
+# Hand-made reference shapes that random generation reaches too rarely (each one was a miss of a seeded change once).
+# Every document is valid today: no known class applies, so any problem reported on them is a violation.
+# ------------------------------------------------------------------------------------------------
+def _grad(i, color):
+    return ('<linearGradient id="%s" gradientUnits="userSpaceOnUse" x1="0" x2="20"><stop offset="0" stop-color="white"/>'
+            '<stop offset="1" stop-color="%s"/></linearGradient>' % (i, color))
+
+
+def crafted_docs():
+    out = []
+    # a path whose fill AND stroke are different patterns; what the stroke pattern's content uses is used nowhere else
+    for res, attr, definition in [
+        ('only-g', 'fill="url(#only-g)"', _grad('only-g', 'red')),
+        ('only-c', 'clip-path="url(#only-c)"', '<clipPath id="only-c"><circle cx="5" cy="5" r="4"/></clipPath>'),
+        ('only-m', 'mask="url(#only-m)"', '<mask id="only-m" maskUnits="userSpaceOnUse" x="0" y="0" width="10" height="10"><rect width="8" height="8" fill="white"/></mask>'),
+        ('only-f', 'filter="url(#only-f)"', '<filter id="only-f" filterUnits="userSpaceOnUse" x="0" y="0" width="10" height="10"><feOffset dx="1"/></filter>'),
+        ('only-p', 'fill="url(#only-p)"', '<pattern id="only-p" patternUnits="userSpaceOnUse" width="4" height="4"><rect width="2" height="2" fill="blue"/></pattern>'),
+    ]:
+        for order in (0, 1):
+            fillp = '<pattern id="pf" patternUnits="userSpaceOnUse" width="10" height="10"><rect width="6" height="6" fill="green"/></pattern>'
+            strokep = ('<pattern id="ps" patternUnits="userSpaceOnUse" width="10" height="10"><rect width="9" height="9" %s/></pattern>' % attr)
+            if 'fill=' not in attr:
+                strokep = strokep.replace('<rect width="9"', '<rect fill="orange" width="9"')
+            paints = ('fill="url(#pf)" stroke="url(#ps)"', 'fill="url(#ps)" stroke="url(#pf)"')[order]
+            out.append('<svg %s width="100" height="100"><defs>%s%s%s</defs><rect x="10" y="10" width="70" height="60" stroke-width="12" %s/></svg>'
+                       % (NS, definition, fillp, strokep, paints))
+    # an objectBoundingBox definition whose FIRST user has an empty bounding box (stroked horizontal line), then a normal user
+    line = '<line x1="10" y1="30" x2="90" y2="30" stroke="black" stroke-width="6" %s/>'
+    rect = '<rect x="10" y="50" width="60" height="40" fill="green" %s/>'
+    for attr, definition in [
+        ('mask="url(#m1)"', '<mask id="m1"><rect x="0.1" y="0.1" width="0.8" height="0.8" fill="white"/></mask>'),
+        ('mask="url(#m1)"', '<mask id="m1" maskContentUnits="objectBoundingBox"><rect x="0.1" y="0.1" width="0.8" height="0.8" fill="white"/></mask>'),
+        ('clip-path="url(#c1)"', '<clipPath id="c1" clipPathUnits="objectBoundingBox"><rect x="0.1" y="0.1" width="0.8" height="0.8"/></clipPath>'),
+        ('filter="url(#f1)"', '<filter id="f1"><feOffset dx="2" dy="2"/></filter>'),
+        ('fill="url(#g1)"', '<linearGradient id="g1"><stop offset="0" stop-color="white"/><stop offset="1" stop-color="red"/></linearGradient>'),
+        ('fill="url(#p1)"', '<pattern id="p1" width="0.25" height="0.25"><rect width="6" height="6" fill="blue"/></pattern>'),
+    ]:
+        for users in ((line, rect), (line, rect, rect.replace('y="50"', 'y="5" x="40"')), (rect, line, rect.replace('width="60"', 'width="30"'))):
+            out.append('<svg %s width="100" height="100"><defs>%s</defs>%s</svg>' % (NS, definition, ''.join(u % attr for u in users)))
+    return out
